@@ -144,8 +144,21 @@ Definition skip_flush (c : tconn) (used : Z) (calls : list (list chunk)) : tres 
 Definition limit_hit (maxPer maxTotal pages used : Z) : bool :=
   ((maxPer >? 0) && (pages >=? maxPer)) || ((maxTotal >? 0) && (used >=? maxTotal)).
 
-(* ---- insertIntoConn :715-730; None = panic("wtf") *)
-Definition insert_into_conn (maxPer maxTotal seq len : Z) (e : bool) (ts : Z) (w : twork)
+(* the loop of insertIntoConn (C11 repair): `for conn.first != nil && limit reached { addNextFromConn }`;
+   every iteration pops one page, so the length of the queue is enough fuel *)
+Fixpoint limit_loop (fuel : nat) (maxPer maxTotal : Z) (w : twork) : twork :=
+  match fuel with
+  | O => w
+  | S f =>
+    match tc_queue (w_c w) with
+    | [] => w
+    | _ => if limit_hit maxPer maxTotal (tc_pages (w_c w)) (w_used w)
+           then limit_loop f maxPer maxTotal (add_next w) else w
+    end
+  end.
+
+(* ---- insertIntoConn :715-733; None = panic("wtf") *)
+Definition insert_into_conn (v : variant) (maxPer maxTotal seq len : Z) (e : bool) (ts : Z) (w : twork)
     : option twork :=
   let c := w_c w in
   let wtf := match tc_queue c with p :: _ => tp_seq p =? tc_next c | [] => false end in
@@ -156,7 +169,8 @@ Definition insert_into_conn (maxPer maxTotal seq len : Z) (e : bool) (ts : Z) (w
   let '(a, b) := traverse (tc_queue c) seq in
   let c1 := set_queue c (tc_pages c + n) (a ++ ps ++ b) (tc_next c) in
   let w1 := mkW c1 used1 (w_ret w) in
-  if limit_hit maxPer maxTotal (tc_pages c1) used1 then Some (add_next w1) else Some w1.
+  if v_limit v then Some (limit_loop (length (tc_queue c1)) maxPer maxTotal w1)
+  else if limit_hit maxPer maxTotal (tc_pages c1) used1 then Some (add_next w1) else Some w1.
 
 (* ---- the pool *)
 Record tstate := mkTS {
@@ -218,7 +232,7 @@ Definition put_back (st : tstate) (pre post : list tconn) (free : list Z) (fresh
          (ts_maxPer st) (ts_maxTotal st) nstreams false.
 
 (* ---- AssembleWithTimestamp :567-609, the part under the connection lock *)
-Definition assemble_locked (st : tstate) (c0 : tconn)
+Definition assemble_locked (v : variant) (st : tstate) (c0 : tconn)
     (seq : Z) (syn fin rst : bool) (len ts : Z) : option tres :=
   (* :567-569 *)
   let c := if tc_seen c0 <? ts then mkTC (tc_key c0) (tc_sid c0) (tc_pages c0) (tc_queue c0) (tc_next c0) ts
@@ -231,9 +245,9 @@ Definition assemble_locked (st : tstate) (c0 : tconn)
       if syn then
         Some (mkW (set_queue c (tc_pages c) (tc_queue c) (sadd seq (len + 1))) (ts_used st)
                   [mkCh len 0 true false ts])
-      else insert_into_conn (ts_maxPer st) (ts_maxTotal st) seq len (rst || fin) ts w0
+      else insert_into_conn v (ts_maxPer st) (ts_maxTotal st) seq len (rst || fin) ts w0
     else if tdiff (tc_next c) seq1 >? 0 then
-      insert_into_conn (ts_maxPer st) (ts_maxTotal st) seq len (rst || fin) ts w0
+      insert_into_conn v (ts_maxPer st) (ts_maxTotal st) seq len (rst || fin) ts w0
     else
       let '(l, nx) := span_len (tc_next c) seq1 len in
       Some (mkW (set_queue c (tc_pages c) (tc_queue c) nx) (ts_used st)
@@ -259,7 +273,7 @@ Definition tassemble (v : variant) (st : tstate) (k seq : Z) (syn fin rst : bool
   let endp := negb syn && (len =? 0) in
   match split_key k (ts_conns st) with
   | Some (pre, c, post) =>
-    match assemble_locked st c seq syn fin rst len ts with
+    match assemble_locked v st c seq syn fin rst len ts with
     | None => (dead_of st, mkTO [] 0 0 true)
     | Some r =>
       (put_back st pre post (ts_free st) (ts_fresh st) (ts_alloc st) (ts_nstreams st) r,
@@ -271,7 +285,7 @@ Definition tassemble (v : variant) (st : tstate) (k seq : Z) (syn fin rst : bool
     let '(inh, free1, fresh1, alloc1) := take_free st in
     (* reset :388-396: the unchanged tree leaves lastSeen of the recycled object in place *)
     let c := mkTC k sid 0 [] INVALID (if v_lastseen v then ts else inh) in
-    match assemble_locked st c seq syn fin rst len ts with
+    match assemble_locked v st c seq syn fin rst len ts with
     | None => (dead_of st, mkTO [] 0 0 true)
     | Some r =>
       (put_back st (ts_conns st) [] free1 fresh1 alloc1 sid r,
